@@ -4,6 +4,7 @@
  - copy before mutation                                               -> proved
  - a loop that calls a callable object and a false invariant about it -> must NOT be proved (write-set of calls)
  - an off-by-one result                                               -> must NOT be proved (failed or unknown)
+ - a contract-less straight-line helper is inlined: right one proved, wrong one refuted with a counterexample
 Run by ./check C20 on every tier; a wrong outcome is a checker defect (exit 3)."""
 import os, subprocess, sys, json
 V = os.path.dirname(os.path.dirname(os.path.abspath(__file__)))
@@ -39,6 +40,10 @@ def run():
         bad.append("loop_calls_object: a false postcondition was proved (write set of object calls)")
     if all(s == "discharged" for s in out.get("wrong_sum", ["discharged"])):
         bad.append(f"wrong_sum: an off-by-one result was proved: {out.get('wrong_sum')}")
+    if set(out.get("smaller_inlined", [])) != {"discharged"}:
+        bad.append(f"smaller_inlined (helper inlining): {out.get('smaller_inlined')}")
+    if "failed" not in out.get("smaller_inlined_wrong", []):
+        bad.append(f"smaller_inlined_wrong: a wrong inlined helper was not refuted: {out.get('smaller_inlined_wrong')}")
     return bad
 
 
